@@ -170,6 +170,7 @@ func genParse(c *ctx) string {
 	fmt.Fprintf(&b, "def argPosAfterToken : Bool := %s\n", argPosAfterToken(c))
 	fmt.Fprintf(&b, "def opLineBeforeSkip : Bool := %s\n", opLineBeforeSkip(c))
 	fmt.Fprintf(&b, "def maxParseDepth : Option Nat := %s\n", maxParseDepth(c))
+	fmt.Fprintf(&b, "/-- `readFragment`: the type condition of an inline fragment must be a named object / interface / union type (D100, D110) -/\ndef condStrict : Bool := %s\n", condStrict(c))
 	fmt.Fprintf(&b, "/-- `readType`: a list type without a member type (`[]`) is a parse error (D107) -/\ndef listNeedsMember : Bool := %s\n", listNeedsMember(c))
 	type ent struct{ name, h string }
 	var ents []ent
@@ -196,6 +197,23 @@ func genParse(c *ctx) string {
 	}
 	b.WriteString("]\nend Ggql.Gen\n")
 	return b.String()
+}
+
+// condStrict reads the `on` arm of exeParser.readFragment (whole-arm match of the two forms).
+func condStrict(c *ctx) string {
+	fd := c.funcs["exeParser.readFragment"]
+	if fd == nil {
+		return unknown("readFragment", "exeparser.go")
+	}
+	t := regexp.MustCompile(`(?m)//.*$`).ReplaceAllString(c.src(fd.Body), "")
+	t = regexp.MustCompile(`\s+`).ReplaceAllString(t, " ")
+	switch {
+	case strings.Contains(t, `if t, err = p.readType(); err == nil { if _, ok := t.(*Ref); ok { err = parseError(line, col, "type %s not defined", t.Name()) } else { sel, err = p.readInline(t) } }`):
+		return "false"
+	case strings.Contains(t, `if t, err = p.readType(); err == nil { switch t.(type) { case *Ref, *Directive: err = parseError(line, col, "type %s not defined", t.Name()) case *List, *NonNull: err = parseError(line, col, "a type condition must be a named type, not %s", t.Name()) case nil, *Object, *Interface, *Union, *Schema: sel, err = p.readInline(t) default: err = parseError(line, col, "a type condition must be an object, interface or union type, not %s", t.Name()) } }`):
+		return "true"
+	}
+	return unknown("readFragment on arm", c.pos(fd))
 }
 
 // listNeedsMember reads the `[` arm of parser.readType: is a nil inner type refused right after the inner call?
